@@ -623,7 +623,9 @@ def _scenario_job(job):
     sc, queries = job
     try:
         return run_scenario(sc, queries)
-    except Exception as e:  # realisation failed (harness limitation), counted
+    except (KeyboardInterrupt, SystemExit):
+        raise
+    except BaseException as e:  # realisation failed (counted); pyo3 panics are BaseExceptions
         import traceback
         return dict(error="%s: %s" % (type(e).__name__, e), tb=traceback.format_exc()[-1500:])
 
